@@ -178,7 +178,8 @@ func checkC14(c *Ctx) {
 				// replace a host node
 				h := &real[r.Intn(len(real))]
 				nt := pickStr(r, "c", "b", "p")
-				h.Type, h.Major, h.Minor = nt, int64(1+r.Intn(200)), int64(r.Intn(200))
+				// (device numbers over their whole range: 12 bits of major, 20 bits of minor)
+				h.Type, h.Major, h.Minor = nt, []int64{int64(1 + r.Intn(200)), 255, 256, 511, 4095}[r.Intn(5)], []int64{int64(r.Intn(200)), 255, 256, 259, int64(256 + r.Intn(65000)), 1048575}[r.Intn(6)]
 				if nt == "p" {
 					h.Major, h.Minor = 0, 0
 				}
@@ -371,7 +372,7 @@ func checkC14(c *Ctx) {
 					if h.Type == "p" {
 						continue
 					}
-					h.Minor = (h.Minor + 1 + int64(r.Intn(50))) % 256
+					h.Minor = []int64{(h.Minor + 1 + int64(r.Intn(50))) % 256, 256 + int64(r.Intn(3000)), 65536 + int64(r.Intn(100000)), 1048575, 255, 259}[r.Intn(6)]
 					if err := mknodAs(h.Path, h.Type, h.Major, h.Minor); err != nil {
 						c.Inconclusive("mknod")
 						return
